@@ -62,6 +62,7 @@ func (stdin *Stdin) File() *os.File {
 
 // Open the stream.Io interface for another dependant
 func (stdin *Stdin) Open() {
+	verifYield(stdin, "open")
 	stdin.mutex.Lock()
 	atomic.AddInt32(&stdin.dependents, 1)
 	stdin.mutex.Unlock()
@@ -69,6 +70,7 @@ func (stdin *Stdin) Open() {
 
 // Close the stream.Io interface
 func (stdin *Stdin) Close() {
+	verifYield(stdin, "close")
 	stdin.mutex.Lock()
 
 	i := atomic.AddInt32(&stdin.dependents, -1)
@@ -79,6 +81,7 @@ func (stdin *Stdin) Close() {
 
 // ForceClose forces the stream.Io interface to close. This should only be called by a STDIN reader
 func (stdin *Stdin) ForceClose() {
+	verifYield(stdin, "force")
 	if stdin.forceClose != nil {
 		stdin.forceClose()
 	}
